@@ -344,7 +344,7 @@ theorem subst_atom0 (o : Opts) (hdeg : o.degrees = false) {pm : PMesg} {p : PFie
     refine ⟨.scaled v p.scale p.offset, ?_, ?_⟩
     · simp [fieldAtoms, hdeg, hraw', hscl, hss, cellPieces]
     · simp only at har
-      simp only [parseAtom, hdg, Bool.false_eq_true, ↓reduceIte, hb, beq_self_eq_true, Bool.and_self, har]
+      simp only [parseAtom, hdg, Bool.false_eq_true, ↓reduceIte, hb, beq_self_eq_true, Bool.and_self, har, int32Bts_ne_string hbts]
 
 /-- … with or without the degrees option: a field with sub-fields is not in semicircles -/
 theorem subst_atom (o : Opts) {pm : PMesg} {p : PField} (hpm : pm ∈ profile) (hlow : pm.num < mfgRangeMin)
